@@ -221,11 +221,24 @@ func c20CheckShuffle(r *vlib.Run, n, variant, ent int) {
 	case !c20SameMultiset(got, s):
 		r.Violation("shuffle.Shuffle", "not-permutation", key, fmt.Sprintf("len=%d entropy#%d: output is not a permutation of the input (got %v)", n, ent, c20Head(got)), c)
 	case !c20Eq(got, want):
-		r.Violation("shuffle.Shuffle", "wrong-value", key, fmt.Sprintf("len=%d entropy#%d: got %v..., GP F.3 gives %v...", n, ent, c20Head(got), c20Head(want)), c)
+		r.Violation("shuffle.Shuffle", "wrong-value", key, fmt.Sprintf("len=%d entropy#%d: %s (GP F.3); got %v...", n, ent, c20Diff(got, want), c20Head(got)), c)
 	}
 	if r.WantSample() && n == 9 {
 		r.Sample(map[string]interface{}{"part": "shuffle", "len": n, "entropy": vlib.Hex(e[:]), "out": got})
 	}
+}
+
+// c20Diff describes the first position where two sequences differ.
+func c20Diff(got, want []uint32) string {
+	if len(got) != len(want) {
+		return fmt.Sprintf("length %d vs %d", len(got), len(want))
+	}
+	for i := range got {
+		if got[i] != want[i] {
+			return fmt.Sprintf("first difference at index %d: got %d, reference %d", i, got[i], want[i])
+		}
+	}
+	return "equal"
 }
 
 func c20Head(s []uint32) []uint32 {
@@ -342,7 +355,7 @@ func c20CheckAssign(r *vlib.Run, p c20Params, ent int, t uint32) {
 		}
 	}
 	if !c20Eq(got, want) {
-		bad("extrinsic.permute", "wrong-value", fmt.Sprintf("got %v..., GP 11.20 gives %v...", c20Head(got), c20Head(want)))
+		bad("extrinsic.permute", "wrong-value", fmt.Sprintf("%s (GP 11.20); got %v...", c20Diff(got, want), c20Head(got)))
 	}
 
 	// (b) rotation: within an epoch the assignment is constant inside a rotation period and advances
@@ -381,7 +394,7 @@ func c20CheckAssign(r *vlib.Run, p c20Params, ent int, t uint32) {
 		bad("extrinsic.NewGuranatorAssignments", "nondeterministic", "two computations from fresh state differ")
 	}
 	if !c20Eq(c20Cores(res[0].CoreAssignments), want) {
-		bad("extrinsic.NewGuranatorAssignments", "wrong-value", fmt.Sprintf("cores %v..., GP 11.20 gives %v...", c20Head(c20Cores(res[0].CoreAssignments)), c20Head(want)))
+		bad("extrinsic.NewGuranatorAssignments", "wrong-value", fmt.Sprintf("%s (GP 11.20)", c20Diff(c20Cores(res[0].CoreAssignments), want)))
 	}
 	if !c20ValsEq(res[0].PublicKeys, c20Validators(p.V, 0x11)) {
 		bad("extrinsic.NewGuranatorAssignments", "wrong-keys", "public keys differ from the (offender-free) validator set")
@@ -413,7 +426,7 @@ func c20CheckAssign(r *vlib.Run, p c20Params, ent int, t uint32) {
 			return
 		}
 		if !c20Eq(c20Cores(g[0].CoreAssignments), want) || !c20ValsEq(g[0].PublicKeys, c20Validators(p.V, 0x11)) {
-			bad("extrinsic.GFunc", "wrong-value", fmt.Sprintf("G cores %v..., GP 11.21 gives %v... with kappa'", c20Head(c20Cores(g[0].CoreAssignments)), c20Head(want)))
+			bad("extrinsic.GFunc", "wrong-value", fmt.Sprintf("G: %s (GP 11.21), keys equal kappa': %v", c20Diff(c20Cores(g[0].CoreAssignments), want), c20ValsEq(g[0].PublicKeys, c20Validators(p.V, 0x11))))
 		}
 		prev := t - uint32(p.R)
 		same := int(prev)/p.E == int(t)/p.E
@@ -424,7 +437,7 @@ func c20CheckAssign(r *vlib.Run, p c20Params, ent int, t uint32) {
 		wstar := c20RefAssign(p, we, prev)
 		r.Class(fmt.Sprintf("gstar mode=%s same-epoch=%v", p.name, same))
 		if !c20Eq(c20Cores(gs[0].CoreAssignments), wstar) || !c20ValsEq(gs[0].PublicKeys, c20Validators(p.V, wtag)) {
-			bad("extrinsic.GStarFunc", "wrong-value", fmt.Sprintf("G* cores %v..., GP 11.22 gives %v... (same epoch=%v)", c20Head(c20Cores(gs[0].CoreAssignments)), c20Head(wstar), same))
+			bad("extrinsic.GStarFunc", "wrong-value", fmt.Sprintf("G*: %s (GP 11.22, tau'-R in the same epoch=%v), keys are the expected set: %v", c20Diff(c20Cores(gs[0].CoreAssignments), wstar), same, c20ValsEq(gs[0].PublicKeys, c20Validators(p.V, wtag))))
 		}
 		if same {
 			a, b := c20Cores(g[0].CoreAssignments), c20Cores(gs[0].CoreAssignments)
